@@ -5,12 +5,12 @@
 // quiescent (every query is either returned, blocked at the mock, or parked in TryAddFor on a full
 // semaphore).  The harness owns the semaphore channel and samples len(sem) after every operation.
 //
-//   distributed runner: blocking holders are REAL queries held inside a mock hosts.Resolver (which is
-//     called after the acquisition); the exit path (result / error / panic in resolver or querier /
-//     cancellation) is chosen when the script finishes them.
-//   engine runner: real queries on the repository's test DB (or a missing DB / interface) run to
-//     completion within their operation; the other holders are slots taken on the shared channel
-//     by the harness itself.
+//	distributed runner: blocking holders are REAL queries held inside a mock hosts.Resolver (which is
+//	  called after the acquisition); the exit path (result / error / panic in resolver or querier /
+//	  cancellation) is chosen when the script finishes them.
+//	engine runner: real queries on the repository's test DB (or a missing DB / interface) run to
+//	  completion within their operation; the other holders are slots taken on the shared channel
+//	  by the harness itself.
 //
 // Ordering is by channels only; timeouts are (a) the acquisition timeout of a query that is started
 // while the semaphore is full and nobody can release (rejection is certain) and (b) watchdogs.
@@ -43,16 +43,19 @@ import (
 )
 
 const (
-	longWait  = 10 * time.Minute      // acquisition timeout of a query that is meant to get a slot
-	shortWait = 4 * time.Millisecond  // acquisition timeout of a query that is meant to be rejected
-	watchdog  = 20 * time.Second      // a step that does not finish within this is recorded as a hang
+	longWait  = 10 * time.Minute     // acquisition timeout of a query that is meant to get a slot
+	shortWait = 4 * time.Millisecond // acquisition timeout of a query that is meant to be rejected
+	watchdog  = 20 * time.Second     // a step that does not finish within this is recorded as a hang
+	// acquisition timeout of a query that the script cancels while it waits on a full semaphore: the real
+	// code ignores the cancellation and answers when this timer fires; the cancel follows the spawn at once
+	cancelWait = 150 * time.Millisecond
 )
 
 // once a step has hung (the run already fails) later hangs are not waited for as long
 var hangSeen atomic.Bool
 
 type opIn struct {
-	Op       string `json:"op"` // spawn | finish
+	Op       string `json:"op"` // spawn | finish | cancelwait
 	Q        int    `json:"q"`
 	Kind     string `json:"kind,omitempty"`    // prepfail | run
 	Variant  string `json:"variant,omitempty"` // how the kind is realised (see spawn)
@@ -60,6 +63,7 @@ type opIn struct {
 	Exit     string `json:"exit,omitempty"` // ok | err | panic | cancel
 	Patient  bool   `json:"patient,omitempty"`
 	DefWait  bool   `json:"defwait,omitempty"` // impatient query without keepalive: DefaultSemTimeout (1s)
+	CWait    bool   `json:"cwait,omitempty"`   // patient query that the next operation cancels while it waits
 }
 
 type input struct {
@@ -213,6 +217,9 @@ func buildArgs(in *input, o opIn, full bool) (*query.Args, string) {
 			a.KeepAlive = 0
 		}
 	}
+	if full && o.Patient && o.CWait {
+		a.KeepAlive = cancelWait
+	}
 	if in.Runner == "dist" {
 		a.QueryHosts = fmt.Sprintf("q%d", o.Q)
 		a.Ifaces = "any"
@@ -365,12 +372,44 @@ func execute(in *input) (obs []obsOp, err error) {
 		return items, nil
 	}
 
+	// the caller goes away while its query is parked in the acquisition on a full semaphore
+	cancelwait := func(o opIn) ([]item, error) {
+		c := w.get(o.Q)
+		if c == nil || !c.spec.CWait {
+			return nil, fmt.Errorf("cancelwait of query %d which the script did not start as cwait", o.Q)
+		}
+		idx := -1
+		for i, p := range pending {
+			if p == c {
+				idx = i
+			}
+		}
+		if idx < 0 {
+			hung = true
+			return []item{{Q: o.Q, Code: "hang", Msg: "expected to be waiting for a slot, but is not"}}, nil
+		}
+		pending = append(pending[:idx:idx], pending[idx+1:]...)
+		c.cancel()
+		it := wait(c, c.spec.Blocking)
+		switch it.Code {
+		case "acq":
+			live++
+		case "hang":
+			hung = true
+		}
+		return []item{it}, nil
+	}
+
 	for _, o := range in.Ops {
 		if hung {
 			break
 		}
 		var items []item
 		switch o.Op {
+		case "cancelwait":
+			if items, err = cancelwait(o); err != nil {
+				return nil, err
+			}
 		case "spawn":
 			items = spawn(o)
 		case "finish":
@@ -409,6 +448,9 @@ func coqOp(o opIn) string {
 	if o.Op == "finish" {
 		return fmt.Sprintf("OpFinish %d", o.Q)
 	}
+	if o.Op == "cancelwait" {
+		return fmt.Sprintf("OpCancelWait %d", o.Q)
+	}
 	k := "KPrepFail"
 	if o.Kind == "run" {
 		x := map[string]string{"ok": "XOk", "err": "XErr", "panic": "XPanic", "cancel": "XCancel"}[o.Exit]
@@ -435,6 +477,9 @@ func validate(in *input) error {
 		n++
 		if o.Kind != "prepfail" && o.Kind != "run" {
 			return fmt.Errorf("kind %q", o.Kind)
+		}
+		if o.CWait && (o.Kind != "run" || !o.Patient || (in.Runner == "engine" && o.Blocking)) {
+			return errors.New("cwait needs a patient real query")
 		}
 		if o.Kind == "run" {
 			if _, ok := map[string]bool{"ok": true, "err": true, "panic": true, "cancel": true}[o.Exit]; !ok {
@@ -476,6 +521,9 @@ func run(raw json.RawMessage, _ vhlib.Opts) (*vhlib.Case, error) {
 				}
 			}
 			tagset[t] = true
+			if o.CWait {
+				tagset["cancel-while-waiting"] = true
+			}
 			if o.Variant != "" {
 				tagset["variant:"+o.Variant] = true
 			}
@@ -611,6 +659,20 @@ func genScript(r *vhlib.Rand, runner string, max, nops int) *input {
 			g.add(opIn{Op: "finish", Q: vhlib.Pick(r, g.holders)})
 			continue
 		}
+		// the caller of a query beyond the limit goes away while the query waits; afterwards the limit
+		// must be what it was: followed by an attempt that has to be rejected
+		if g.inUse >= max && r.Chance(6) {
+			o := g.randomSpawn(false)
+			if o.Kind == "run" && !(runner == "engine" && o.Blocking) {
+				o.Patient, o.CWait = true, true
+				g.in.Ops = append(g.in.Ops, o, opIn{Op: "cancelwait", Q: o.Q})
+				g.n++
+				probe := g.randomSpawn(false)
+				probe.Patient = false
+				g.add(probe)
+				continue
+			}
+		}
 		// bias towards filling the semaphore so that the limit is reached
 		o := g.randomSpawn(g.waiter < 0)
 		if g.inUse < max && r.Chance(50) {
@@ -642,6 +704,16 @@ func sp(q int, kind, variant string, blocking bool, exit string, patient bool) o
 	return opIn{Op: "spawn", Q: q, Kind: kind, Variant: variant, Blocking: blocking, Exit: exit, Patient: patient}
 }
 func fin(q int) opIn { return opIn{Op: "finish", Q: q} }
+func cw(q int, variant string, blocking bool, exit string) []opIn {
+	return []opIn{{Op: "spawn", Q: q, Kind: "run", Variant: variant, Blocking: blocking, Exit: exit, Patient: true, CWait: true},
+		{Op: "cancelwait", Q: q}}
+}
+func cat(parts ...[]opIn) (out []opIn) {
+	for _, p := range parts {
+		out = append(out, p...)
+	}
+	return out
+}
 
 // hand-picked boundary scripts
 func fixed() []input {
@@ -673,6 +745,19 @@ func fixed() []input {
 			sp(2, "run", "nodb", false, "err", false), sp(3, "run", "", true, "ok", false), sp(4, "run", "", false, "ok", false),
 			sp(5, "run", "noiface", false, "err", false), sp(6, "prepfail", "badquery", false, "", false), fin(1),
 			sp(7, "run", "noiface", false, "err", false), sp(8, "run", "", false, "ok", false), fin(3)}},
+		// engine: all slots held, the caller of one more query cancels while it waits: still 429, nothing is
+		// given back; limit + 1 attempts before and after the co-holders finish
+		{Runner: "engine", Max: 2, Ops: cat([]opIn{sp(0, "run", "", true, "ok", false), sp(1, "run", "", true, "ok", false)},
+			cw(2, "", false, "ok"), []opIn{sp(3, "run", "", false, "ok", false)}, cw(4, "nodb", false, "err"),
+			[]opIn{sp(5, "run", "", false, "ok", false), fin(0), sp(6, "run", "", true, "ok", false), sp(7, "run", "", false, "ok", false),
+				fin(1), fin(6), sp(8, "run", "", true, "ok", false), sp(9, "run", "", true, "ok", false), sp(10, "run", "", false, "ok", false), fin(8), fin(9)})},
+		{Runner: "engine", Max: 1, Ops: cat([]opIn{sp(0, "run", "", true, "ok", false)}, cw(1, "", false, "ok"), cw(2, "noiface", false, "err"),
+			[]opIn{sp(3, "run", "", false, "ok", false), fin(0), sp(4, "run", "", true, "ok", false), sp(5, "run", "", false, "ok", false), fin(4)})},
+		// distributed: the same with real holders
+		{Runner: "dist", Max: 2, Ops: cat([]opIn{sp(0, "run", "", true, "ok", false), sp(1, "run", "resolve", true, "err", false)},
+			cw(2, "", true, "ok"), cw(3, "", false, "cancel"), []opIn{sp(4, "run", "", false, "ok", false), fin(1),
+				sp(5, "run", "", true, "cancel", false), sp(6, "run", "", true, "ok", false), fin(0), fin(5)})},
+		{Runner: "dist", Max: 0, Ops: cat(cw(0, "", false, "ok"), []opIn{sp(1, "run", "", false, "ok", false)})},
 		// engine: a parked real query is served when the foreign holder leaves
 		{Runner: "engine", Max: 1, Ops: []opIn{sp(0, "run", "", true, "ok", false), sp(1, "run", "nodb", false, "err", true),
 			{Op: "spawn", Q: 2, Kind: "run", Exit: "ok", DefWait: true}, fin(0), sp(3, "run", "", false, "ok", false)}},
